@@ -51,10 +51,11 @@ Fixpoint list_eqb (a b : list string) : bool :=
   end.
 
 (* ------------------------------------------------------------------------------------------------ *)
-(* 2. inspect.cleandoc(value.rstrip()) on byte strings (ASCII whitespace)                             *)
+(* 2. inspect.cleandoc(value.rstrip()) on strings of code points below 256 (str.isspace on Latin-1:
+      \t \n \v \f \r, the separators 0x1c-0x1f, space, NEL 0x85 and the no-break space 0xa0)             *)
 
 Definition is_ws (c : ascii) : bool :=
-  let n := nat_of_ascii c in ((9 <=? n) && (n <=? 13)) || ((28 <=? n) && (n <=? 32)).
+  let n := nat_of_ascii c in ((9 <=? n) && (n <=? 13)) || ((28 <=? n) && (n <=? 32)) || (n =? 133) || (n =? 160).
 Definition nl : ascii := ascii_of_nat 10.
 Definition cr : ascii := ascii_of_nat 13.
 Definition tab : ascii := ascii_of_nat 9.
